@@ -10,7 +10,8 @@ COQ_HEADER = ("From Coq Require Import List NArith ZArith.\nFrom RV Require Impo
               "Import ListNotations.\nLocal Open Scope N_scope.")
 RUN_EXPR = "Run.C20.run"
 RULE = ("random rule trees to depth 4 mixing declarations, nested rules (plain, `&.suffix`, `x &` selectors, selector lists), "
-        "@media, @supports and unknown at-rules, @keyframes, @at-root with and without selector; half of them generated so that "
+        "@media, @supports and unknown at-rules, @keyframes, @at-root with and without selector (also `@at-root &.x` / `@at-root b &` "
+        "directly inside a selector-less @at-root); half of them generated so that "
         "no direct declaration follows a nested block (outside the known reordering class); distinct = distinct SCSS text; "
         "non-trivial = the tree contains an at-rule or @at-root below a style rule")
 EXHAUSTIVE = {"quick": False, "thorough": False}
@@ -21,6 +22,11 @@ ASSUMPTIONS = ["literal selectors of three shapes (plain, `&.class`, `x &`); sel
 SHARD = 120
 
 WIT = [
+    # `@at-root <selector with &>` directly inside a selector-less @at-root inside a style rule (seeded C20-1)
+    {"mixins": [], "main": [["r", [["p", ".a"]], [["d", "x", "y"], ["ar", None, [
+        ["r", [["p", ".b"]], [["d", "c", "d"]]],
+        ["ar", [["s", ".e"]], [["d", "f", "g"]]],
+        ["ar", [["u", ".h"]], [["d", "i", "j"]]]]]]]]},
     {"mixins": [], "main": [["r", [["p", "a"]], [["m", "print", [["r", [["p", "b"]], [["d", "p1", "v1"]]], ["d", "p2", "v2"]]]]]]},
     {"mixins": [], "main": [["r", [["p", "a"]], [["d", "x", "y"], ["m", "print", [["d", "p1", "v1"]]], ["d", "z", "w"]]]]},
     {"mixins": [], "main": [["r", [["p", "a"]], [["a", "keyframes", "k", [["r", [["p", "from"]], [["d", "p1", "v1"]]]]]]]]},
